@@ -21,10 +21,13 @@ nor mutate in place, nor create an alias/view of a protected variable:
 * nested functions / lambdas / classes that mention a name which is protected at any time fail
   (a closure could write the variable later), as do `exec`, `eval`, `locals`, `vars`, `globals`.
 
-One in-place form is modelled instead of refused: `X[~m] = np.nan` (also `np.logical_not(m)`/`np.invert(m)`) with
-`X` a tracked table and `m` a tracked mask is `Stmt.blank X m` (the `np.where(m, X, nan)` of `applymask`, written
-into the same object).  Because the model has value semantics, every list snapshot that still holds the mutated
-object is marked stale and any later use of it fails."""
+One in-place form is modelled instead of refused: `X[np.logical_not(m)] = np.nan` with `X` a tracked table and `m` a
+tracked mask is `Stmt.blank X m` (the `np.where(m, X, nan)` of `applymask`, written into the same object).  Because
+the model has value semantics, every list snapshot that still holds the mutated object is marked stale and any later
+use of it fails.  NOT modelled, on purpose: `X[~m] = np.nan` / `np.invert(m)` -- four of the five masks of the library
+(`HC_damp`, `HC_cov`, both of `HC_phi_comp`) are 0/1 INTEGER arrays, for which `~m` is the bitwise complement (-1/-2) and
+the subscript an integer (row) index, not a boolean mask; the model's masks are Boolean and cannot tell the difference
+(found by the C09 oracle on a scratch tree that used `~mask2`)."""
 import ast
 import os
 
@@ -328,7 +331,8 @@ class Tr:
         return self.r(_name(node))
 
     def _blank_form(self, st):
-        """(X, m) for `X[~m] = np.nan` / `X[np.logical_not(m)] = np.nan` / `X[np.invert(m)] = np.nan`, else None"""
+        """(X, m) for `X[np.logical_not(m)] = np.nan`, else None.  (`~m` / `np.invert(m)` is deliberately not accepted:
+        the masks of HC_damp / HC_cov / HC_phi_comp are integer arrays, `~m` would be an integer index.)"""
         if not (isinstance(st, ast.Assign) and len(st.targets) == 1):
             return None
         tgt, val = st.targets[0], st.value
@@ -338,12 +342,10 @@ class Tr:
             return None
         sl = tgt.slice
         m = None
-        if isinstance(sl, ast.UnaryOp) and isinstance(sl.op, ast.Invert) and isinstance(sl.operand, ast.Name):
-            m = sl.operand.id
-        elif (
+        if (
             self.np_ok
             and _is_call(sl, "np")
-            and sl.func.attr in ("logical_not", "invert", "bitwise_not")
+            and sl.func.attr == "logical_not"
             and len(sl.args) == 1
             and not sl.keywords
             and isinstance(sl.args[0], ast.Name)
@@ -674,7 +676,7 @@ def read_sources(repo):
 
 def _top_bindings(tree, name):
     """module-level statements that bind `name`"""
-    return [st for st in tree.body if name in _assigned(st)]
+    return [st for st in tree.body if name in ({st.name} if isinstance(st, (ast.FunctionDef, ast.AsyncFunctionDef, ast.ClassDef)) else _assigned(st))]
 
 
 def _module_ok(tree, mod):
@@ -698,9 +700,23 @@ def translate(repo):
     return translate_sources(read_sources(repo))
 
 
-def translate_sources(srcs):
-    """srcs: {"ssi": source text of algorithms/ssi.py, "plscf": ...}"""
-    trees = {mod: ast.parse(srcs[mod]) for mod in ("ssi", "plscf")}
+_PARSED = {}
+
+
+def _parse(text):
+    if text not in _PARSED:
+        if len(_PARSED) > 8:
+            _PARSED.clear()
+        tree = ast.parse(text)
+        _PARSED[text] = tree
+    return _PARSED[text]
+
+
+def translate_sources(srcs, classes=None):
+    """srcs: {"ssi": source text of algorithms/ssi.py, "plscf": ...}; classes: the (module, class) pairs to translate
+    (default: all six -- anything else is for the self-test only)"""
+    classes = CLASSES if classes is None else classes
+    trees = {mod: _parse(srcs[mod]) for mod in ("ssi", "plscf")}
     np_ok = {mod: _module_ok(trees[mod], mod) for mod in trees}
     out = []
     out.append("import PyomaVerif.Model.HcProg")
@@ -708,7 +724,7 @@ def translate_sources(srcs):
     out.append("namespace PV.Hc.Gen")
     out.append("open PV.Hc")
     summary = {}
-    for mod, cls in CLASSES:
+    for mod, cls in classes:
         fn, owner = find_run(trees, mod, cls)
         t = Tr()
         classes = {n_.name: n_ for n_ in trees[mod].body if isinstance(n_, ast.ClassDef)}
